@@ -15,6 +15,9 @@ From PV Require Export Base.Prelude.
 Record kview := {
   kv_stat  : Z -> option (Z * Z * bool);  (* /proc/<pid>/stat: starttime (ticks), ppid, state = 'Z';
                                              None = no such directory; the same answer decides ESRCH *)
+  kv_ctime_ok : Z -> bool;                (* Process.__init__ could read the creation time of <pid>;
+                                             false = _get_ident() raised AccessDenied / ZombieProcess,
+                                             which _init swallows leaving _ident = (pid, None) *)
   kv_pids  : list Z;                      (* numeric entries of os.listdir(/proc), any order *)
   kv_btime : Z;                           (* btime line of /proc/stat *)
   kv_elig  : Z -> list Z                  (* CPUs of Cpus_allowed_list in /proc/<pid>/status *)
@@ -25,11 +28,11 @@ Record kview := {
    (ticks < 2^52), so the model keeps the tick count.  _create_time is kept in 1/100 s (exact). *)
 Record pobj := {
   opid    : Z;               (* _pid *)
-  ostart  : Z;               (* second component of _ident, in ticks *)
+  ostart  : option Z;        (* second component of _ident, in ticks; None = could not be read *)
   ogone   : bool;            (* _gone *)
   oreused : bool;            (* _pid_reused *)
   octime  : option Z;        (* _create_time (x 100) *)
-  ohash   : option (Z * Z)   (* _hash: None or the hashed identity *)
+  ohash   : option (Z * option Z)   (* _hash: None or the hashed identity *)
 }.
 
 Definition with_gone (b : bool) (x : pobj) : pobj :=
@@ -38,13 +41,15 @@ Definition with_reused (b : bool) (x : pobj) : pobj :=
   {| opid := opid x; ostart := ostart x; ogone := ogone x; oreused := b; octime := octime x; ohash := ohash x |}.
 Definition with_ctime (c : option Z) (x : pobj) : pobj :=
   {| opid := opid x; ostart := ostart x; ogone := ogone x; oreused := oreused x; octime := c; ohash := ohash x |}.
-Definition with_hash (h : option (Z * Z)) (x : pobj) : pobj :=
+Definition with_hash (h : option (Z * option Z)) (x : pobj) : pobj :=
   {| opid := opid x; ostart := ostart x; ogone := ogone x; oreused := oreused x; octime := octime x; ohash := h |}.
 
-Definition ident (x : pobj) : Z * Z := (opid x, ostart x).
+Definition ident (x : pobj) : Z * option Z := (opid x, ostart x).
+Definition opt_eqb (a b : option Z) : bool :=
+  match a, b with Some u, Some v => u =? v | None, None => true | _, _ => false end.
 (* __eq__ : self._ident == other._ident *)
-Definition obj_eq (a b : pobj) : bool := (opid a =? opid b) && (ostart a =? ostart b).
-Definition ident_eqb (a b : Z * Z) : bool := (fst a =? fst b) && (snd a =? snd b).
+Definition obj_eq (a b : pobj) : bool := (opid a =? opid b) && opt_eqb (ostart a) (ostart b).
+Definition ident_eqb (a b : Z * option Z) : bool := (fst a =? fst b) && opt_eqb (snd a) (snd b).
 
 (* module globals of psutil/__init__.py and psutil/_pslinux.py *)
 Record mstate := {
@@ -140,7 +145,8 @@ Definition new_obj (pid : Z) : outcome pobj :=
   else match kv_stat K pid with
        | None => Exc NoSuchProcess
        | Some (st, _, _) =>
-         Val {| opid := pid; ostart := st; ogone := false; oreused := false; octime := None; ohash := None |}
+         Val {| opid := pid; ostart := if kv_ctime_ok K pid then Some st else None;
+                ogone := false; oreused := false; octime := None; ohash := None |}
        end.
 
 (* is_running(): result, new object state, PIDs added to _pids_reused *)
@@ -148,6 +154,9 @@ Definition is_running (x : pobj) : pobj * outcome bool * list Z :=
   if ogone x || oreused x then (x, Val false, [])
   else match new_obj (opid x) with
        | Val y =>
+         (* creation time unreadable this time: the PID exists and nothing says it was reused *)
+         if match ostart y, ostart x with None, Some _ => true | _, _ => false end then (x, Val true, [])
+         else
          if obj_eq x y then (with_reused false x, Val true, [])
          else (with_gone true (with_reused true x), Val false, [opid x])
        | Exc ZombieProcess => (x, Val true, [])
@@ -248,7 +257,7 @@ Definition do_create_time (m : mstate) (x : pobj) : mstate * pobj * outcome res 
   end.
 
 (* __hash__ *)
-Definition do_hash (x : pobj) : pobj * (Z * Z) :=
+Definition do_hash (x : pobj) : pobj * (Z * option Z) :=
   match ohash x with
   | Some h => (x, h)
   | None => (with_hash (Some (ident x)) x, ident x)
